@@ -61,12 +61,14 @@ func vp_C08_levels() {
 	senderLevel := old.UserLevel(spec.SenderID(sender))
 
 	err := checkEventLevels(senderLevel, old, new)
+	creator, extraCreator := vpNondetStringN("creator", 2), vpNondetStringN("additional_creator", 2)
 	if err == nil && vpConfig("plcheck") == "v2" {
-		err = checkPowerLevelEventV2(sender, nil, old, new)
+		// versions 6-11: whoever sent the create event (possibly the sender itself) has no special standing
+		create := vpMkEvent(RoomVersionV10, "$create:x", vpRoom, creator, spec.MRoomCreate, vpStrPtr(""), vpJObj("room_version", "10"))
+		err = checkPowerLevelEventV2(sender, create, old, new)
 	}
 	// v3 (room version 12): additionally no creator - the sender of the create event or an additional creator - may
 	// be named in the new users map, whatever the old content looked like
-	creator, extraCreator := vpNondetStringN("creator", 2), vpNondetStringN("additional_creator", 2)
 	if err == nil && vpConfig("plcheck") == "v3" {
 		create := vpMkEvent(RoomVersionV12, vpCreateID12, "", creator, spec.MRoomCreate, vpStrPtr(""), vpJObj("room_version", "12", "additional_creators", vpJArr(extraCreator)))
 		err = checkPowerLevelEventV3(sender, create, old, new)
